@@ -209,6 +209,7 @@ def t_excitation(eng):
     src.fields['idx'] = idx
     src.fields['parent'] = m
     cur = eng.getfield(m, 'current')
+    eng.assume(b_and(r_cmp('>=', idx, 0), r_cmp('<', idx, cur.length)))      # register_source: a valid pulse
     I = eng.getitem(cur, idx)
     V = eng.getfield(src, 'voltage')
     eng.inline.update(['Excitation.current', 'Excitation.power', 'Excitation.impedance'])
@@ -264,6 +265,7 @@ def t_as_mininec(eng):
     idx = fresh_int('idx')
     src.fields['idx'] = idx
     src.fields['parent'] = m
+    eng.assume(b_and(r_cmp('>=', idx, 0), r_cmp('<', idx, eng.getfield(m, 'current').length)))
     I = eng.getitem(eng.getfield(m, 'current'), idx)
     V = eng.getfield(src, 'voltage')
     eng.assume(b_not(c_eq(I, 0)))
